@@ -38,6 +38,8 @@ type Reply struct {
 	Faults      map[string]int `json:"faults,omitempty"`
 	Probes      map[string]int `json:"probes,omitempty"`
 	Failed      []*Result      `json:"failed,omitempty"`
+	ILSigs      []uint64       `json:"il_sigs,omitempty"`
+	ILSteps     uint64         `json:"il_steps,omitempty"`
 	One         *Result        `json:"one,omitempty"`
 }
 
@@ -106,6 +108,10 @@ func WorkerMain(p *Property, tier string, seed uint64) {
 				}
 				for k, v := range res.Probes {
 					rep.Probes[k] += v
+				}
+				if res.ILSteps > 0 {
+					rep.ILSigs = append(rep.ILSigs, res.ILHash)
+					rep.ILSteps += res.ILSteps
 				}
 				if res.Nontrivial {
 					rep.Sigs = append(rep.Sigs, res.Sig)
